@@ -24,4 +24,13 @@ CHECKS = {
  "C03": {"technique": "reference-model monitor: symbolic derivatives of the independent reference in the documented layouts + Richardson finite differences of pygom's own ode/jacobian/grad",
          "text": "For generated and catalogue models the reported and evaluated jacobian, grad, diff_jacobian, grad_jacobian, transitionJacobian, transitionMean and transitionVar are compared entry by entry (symbolically, numerically at random points, documented 2-D shapes) with derivatives of the independently assembled right-hand side and with the definitions (dR/dx)V, ((dR/dx)V)R, ((dR/dx)V)^2 R; a second oracle differentiates pygom's own evaluators numerically. Exploration.",
          "note": TB},
+ "C08": {"technique": "differential history monitor: live mutated model vs freshly constructed model (+ independent reference) after every step; mutator x evaluator pair coverage",
+         "text": "Random histories of the 9 structural mutators and 5 parameter-assignment formats, interleaved with evaluations of random evaluator subsets, are applied to one live model; after every step all 11 evaluators are compared with a freshly built model carrying the same accumulated definition and with the independent sympy reference. The run must exercise every (mutator, evaluator compiled before it) pair or it is inconclusive. Exploration over sampled histories.",
+         "note": TB + " Lambdify back-end only (staleness logic is back-end independent: the canary lives above the compiler)."},
+ "C09": {"technique": "history + executable model: sequential shadow map name->value, ode/grad vs independent reference after every assignment; rejected inputs interleaved",
+         "text": "Assignment histories over ten accepted input forms (all values distinct) are applied to the real parameters setter; a 10-line shadow map is the specification; after each step ode and grad must equal the reference evaluated on the shadow. Seven kinds of invalid input must raise, must leave the bound values unchanged, and must not surface through a later partial update. Exploration over sampled histories.",
+         "note": TB},
+ "C12": {"technique": "differential monitor over API routes + independent reference model",
+         "text": "Each random process set is entered through six routes (Event objects, rate-carrying Transitions in event=, legacy transition=/birth_death=, incremental add_* in random order, explicit ODE equations, shuffled order with string declarations), births named by origin or destination; every route's symbolic ODE and ode/jacobian/eventRateVector values must agree with the Event route and the independent reference. Exploration.",
+         "note": TB},
 }
